@@ -247,7 +247,10 @@ func init() {
 			_, prog := grammarScript(r, depth)
 			p := &Printer{}
 			p.program(prog)
-			for layout := 0; layout < 2; layout++ {
+			for layout := 0; layout < 3; layout++ {
+				if layout == 2 && i%2 == 1 {
+					continue // the tight layout (no blank where the lexer needs none) for every other script
+				}
 				text, pos := Render(p.Toks, layout, r)
 				o := runParse(text)
 				parsed := "(mkprogram [] [])"
